@@ -212,6 +212,10 @@ def eval_expr(t, env=None, log=None):
     if k == "neg":
         e = t[1]
         a = eval_expr(e, env, log)
+        if a[0] == "dec" and a[1] == 0:
+            # the sign of a zero is not fixed by the statement (and the implementation spells `- 0.0` as -0.0 but
+            # computes `- (0.0)` and `- z` as 0 - z = 0.0); it shows as soon as the zero is rendered into a string
+            raise Unspecified("sign of a negated zero")
         return binop("-", ("int", 0), a)
     if k == "pos":
         return eval_expr(t[1], env, log)
